@@ -30,7 +30,7 @@ from hvmc.engine import explorer, product   # noqa: E402
 from hvmc.engine.core import close, arr_digest, jsonable     # noqa: E402
 from hvmc.ref import stats as RS    # noqa: E402
 from hvmc.checks import c05, c11, c12   # noqa: E402
-from hvmc.checks.c05 import _call   # noqa: E402
+from hvmc.checks.c05 import _call, ACCESSORS   # noqa: E402
 
 PROPERTY = "C20"
 KW = PP.DEFAULT_KWARGS
@@ -485,6 +485,9 @@ class TradSystem(c05.System):
         return h
 
     def observe(self, h):
+        # "touch": read the statistics (as a user would between steps) but merge states on canon only
+        for name, args in ACCESSORS:
+            _call(h.obj, name, args, "lognormal")
         return None
 
     def invariant(self, h, hist, ctx, root):
@@ -506,6 +509,9 @@ class AziSystem(c11.System):
         return h
 
     def observe(self, h):
+        # "touch": read the statistics (as a user would between steps) but merge states on canon only
+        for name, args in ACCESSORS:
+            _call(h.obj, name, args, "lognormal")
         return None
 
     def invariant(self, h, hist, ctx, root):
@@ -563,7 +569,7 @@ def run_root(root, ctx, tier):
     cls = dict(trad=TradSystem, azi=AziSystem, diffuse=DiffuseSystem)[root["kind"]]
     sysm = cls(root, root["kdev"])
     try:
-        explorer.bfs(sysm, root, root["depth"], ctx, key_prefix="C20")
+        explorer.bfs(sysm, root, root["depth"], ctx, key_prefix="C20", touch=True)
     finally:
         plt.close("all")
         _Fig.fig = None
